@@ -71,16 +71,18 @@ theorem mark_notEol : ∀ b : UInt8, b ≥ 128 → notEol b = true := by
   apply forall_uint8; decide +kernel
 
 /-- **The front of `Reader::read`** on any file of the shape `%PDF-<version>\n%<mark>\n…` whose
-`startxref` is found and whose newest section has no `Prev`: the reader enters the object pass
-with that section's table and trailer. -/
-theorem load_front (arr : List Block → List Block) (out version mark R : Bytes)
+`startxref` is found: the reader enters the object pass with the table and trailer its `Prev`
+walk computes. -/
+theorem load_front_chain (arr : List Block → List Block) (out version mark R : Bytes)
     (hout : out = PDF_KW ++ (version ++ 10 :: 37 :: (mark ++ 10 :: R)))
     (hv1 : ∀ b ∈ version, notEol b = true) (hv2 : validUtf8 version = true)
     (hmark : (mark.all fun b => b ≥ 128) = true)
     (xs : Nat) (hxs : getXrefStart out = some xs) (hle : xs ≤ out.length)
     (x0 : XTable) (sz : Nat) (tr0 : Dict) (hxt : xrefAndTrailer (out.drop xs) = .ok (x0, sz, tr0))
-    (hprev : tr0.get PREV = none) (hmax : x0.maxId + 1 < U32) (henc : tr0.has ENCRYPT = false) :
-    loadDocWith arr out = objectPass arr out version mark x0 tr0 xs := by
+    (x : XTable) (tr : Dict)
+    (hpl : prevLoop out (out.length + 2) (tr0.get PREV) [] x0 (tr0.remove PREV) = .ok (x, tr))
+    (hmax : x.maxId + 1 < U32) (henc : tr.has ENCRYPT = false) :
+    loadDocWith arr out = objectPass arr out version mark x tr xs := by
   have hoff : findFrom PDF_KW (out.length + 1) out 0 = some 0 := by
     rw [hout]; simp [PDF_KW, findFrom, List.isPrefixOf]
   have hhead : pHeader out = some version := by
@@ -115,11 +117,25 @@ theorem load_front (arr : List Block → List Block) (out version mark R : Bytes
       (by intro b r h; injection h with h1 _; subst h1; decide)]
     simp [eol]
   have hnot : ¬ (xs > out.length) := by omega
-  have hmx : ¬ (x0.maxId + 1 ≥ U32) := by omega
+  have hmx : ¬ (x.maxId + 1 ≥ U32) := by omega
   unfold loadDocWith
-  simp only [hoff, List.drop_zero, hhead, hpos, hdrop, hbm, hmark, if_true, hxs, hnot, if_false, hxt, hprev,
-    prevLoop, Option.bind_none, Dict_remove_absent tr0 PREV hprev, hmx, henc, Bool.false_eq_true]
+  simp only [hoff, List.drop_zero, hhead, hpos, hdrop, hbm, hmark, if_true, hxs, hnot, if_false, hxt, hpl,
+    hmx, henc, Bool.false_eq_true]
   rfl
+
+/-- **The front of `Reader::read`** on any file of the shape `%PDF-<version>\n%<mark>\n…` whose
+`startxref` is found and whose newest section has no `Prev`: the reader enters the object pass
+with that section's table and trailer. -/
+theorem load_front (arr : List Block → List Block) (out version mark R : Bytes)
+    (hout : out = PDF_KW ++ (version ++ 10 :: 37 :: (mark ++ 10 :: R)))
+    (hv1 : ∀ b ∈ version, notEol b = true) (hv2 : validUtf8 version = true)
+    (hmark : (mark.all fun b => b ≥ 128) = true)
+    (xs : Nat) (hxs : getXrefStart out = some xs) (hle : xs ≤ out.length)
+    (x0 : XTable) (sz : Nat) (tr0 : Dict) (hxt : xrefAndTrailer (out.drop xs) = .ok (x0, sz, tr0))
+    (hprev : tr0.get PREV = none) (hmax : x0.maxId + 1 < U32) (henc : tr0.has ENCRYPT = false) :
+    loadDocWith arr out = objectPass arr out version mark x0 tr0 xs := by
+  apply load_front_chain arr out version mark R hout hv1 hv2 hmark xs hxs hle x0 sz tr0 hxt x0 tr0 ?_ hmax henc
+  simp [prevLoop, hprev, Dict_remove_absent tr0 PREV hprev]
 
 theorem XTable_mem_get (t : XTable) (k : Nat) (v : XEntry) (h : (k, v) ∈ t) : (t.get k).isSome = true := by
   induction t with
